@@ -2,7 +2,7 @@
    Statements only; every proof is `exact <lemma>` from Proofs/CdsProofs.v (integer core)
    and Proofs/CdsFloatProofs.v (float views). *)
 From Coq Require Import ZArith List.
-From SP Require Import Base.Result Base.Bytes Model.Cds Spec.CdsSpec Proofs.CdsProofs.
+From SP Require Import Base.Result Base.Bytes Model.Cds Model.CdsSoftFloat Model.CdsFloat Spec.CdsSpec Proofs.CdsProofs Proofs.CdsFloatProofs.
 Import ListNotations.
 Open Scope Z_scope.
 
@@ -121,6 +121,39 @@ Theorem C14_eq : forall a b, cds_eqb a b = true <-> a = b.
 Proof. exact cds_eqb_eq. Qed.
 Print Assumptions C14_eq.
 
+(* ---- float views, on the integer binary64 arithmetic of Model/CdsSoftFloat.v (bit-exact
+   against CPython on every run).
+   fl_close u n d b  :=  fe u < 0 /\ 2^b * |d * fm u - n * 2^(-fe u)| <= d * 2^(-fe u),
+   i.e. the double u = fm u * 2^(fe u) satisfies |u - n/d| <= 2^-b.
+   as_unix_seconds is 0.0 at the Unix epoch and otherwise a normal double within 2^-21 s of
+   (days - 4383) * 86400 + ms / 1000, with the sign of that instant (also before 1970). *)
+Theorem C14_unix_seconds_close : forall t, cds_valid t ->
+  let u := cds_unix_seconds t in let i := cds_instant_ms t in
+  (i = 0 -> u = fzero) /\
+  (i <> 0 -> fl_close u i 1000 21 /\ fl_normal u /\ (0 < i -> 0 < fm u) /\ (i < 0 -> fm u < 0)).
+Proof. exact cds_unix_seconds_close. Qed.
+Print Assumptions C14_unix_seconds_close.
+
+(* as_datetime (through datetime.fromtimestamp for instants >= 1970 and epoch + timedelta(seconds=float)
+   before) is exactly 1958-01-01T00:00:00Z + days + ms, at microsecond resolution *)
+Theorem C14_datetime_exact : forall t, cds_valid t ->
+  cds_datetime_us t = cds_instant_ms t * 1000.
+Proof. exact cds_datetime_exact. Qed.
+Print Assumptions C14_datetime_exact.
+
+Theorem C14_datetime_monotone : forall a b, cds_valid a -> cds_valid b ->
+  (cds_lt a b <-> cds_datetime_us a < cds_datetime_us b).
+Proof. exact cds_datetime_monotone. Qed.
+Print Assumptions C14_datetime_monotone.
+
+(* any double within 2^-21 s of a whole millisecond is converted to that exact microsecond by
+   both CPython conversions *)
+Theorem C14_float_to_datetime_exact : forall u N,
+  fl_close u N 1000 21 -> Z.abs (fm u) < 2 ^ 53 ->
+  us_fromtimestamp u = 1000 * N /\ us_timedelta_seconds u = 1000 * N.
+Proof. exact (fun u N C H => conj (us_fromtimestamp_exact u N C H) (us_timedelta_exact u N C H)). Qed.
+Print Assumptions C14_float_to_datetime_exact.
+
 (* non-vacuity *)
 Example C14_valid_inhabited : cds_valid {| cdays := 65535; cms := 86399999 |}.
 Proof. exact cds_valid_example. Qed.
@@ -128,3 +161,8 @@ Example C14_add_inhabited :
   cds_add {| cdays := 65534; cms := 86399000 |} 0 1 0 = Ok {| cdays := 65535; cms := 0 |} /\
   cds_add {| cdays := 65535; cms := 86399000 |} 0 1 0 = Err EOverflow.
 Proof. exact cds_add_example. Qed.
+Example C14_views_inhabited :
+  cds_unix_seconds {| cdays := 4382; cms := 1000 |} = {| fm := -5937294070513664; fe := -36 |} /\
+  -5937294070513664 = -86399 * 2 ^ 36 /\
+  cds_datetime_us {| cdays := 4382; cms := 1000 |} = -86399000000.
+Proof. exact cds_views_example. Qed.
